@@ -34,3 +34,23 @@ Section Spec.
   | safe_end s : find0 sep s = None -> length s + 1 - length sep <= limit -> safe limit s
   | safe_frame s p : find0 sep s = Some p -> p <= limit -> safe limit (skipn (p + length sep) s) -> safe limit s.
 End Spec.
+
+(* fixed-size framing: the stream is a sequence of [size]-byte records *)
+Section SpecFixed.
+  Context {P : Type}.
+  Variable size : nat.
+  Variable dec : decoder P.
+
+  Definition record_event (r : bytes) : nres P :=
+    match dec r with Some x => RPkt x | None => RErr EDecode end.
+
+  Fixpoint fx_fuel (f : nat) (s : bytes) : list (nres P) * bytes :=
+    match f with
+    | 0 => ([], s)
+    | S f' =>
+        if Nat.ltb (length s) size then ([], s)
+        else let '(evs, r) := fx_fuel f' (skipn size s) in (record_event (firstn size s) :: evs, r)
+    end.
+
+  Definition fx_events (s : bytes) : list (nres P) * bytes := fx_fuel (length s) s.
+End SpecFixed.
